@@ -84,6 +84,9 @@ pub struct Parser<'a> {
     builder: GreenTreeBuilder,
     /// Collected parser errors for error recovery
     errors: Vec<ParserError>,
+    /// True while the type annotation of a lambda parameter is parsed outside any bracket: there a `|`
+    /// closes the parameter list, so a union type has to be parenthesised
+    in_lambda_param_type: bool,
 }
 
 /// Maximum lookahead distance for disambiguation
@@ -97,6 +100,7 @@ impl<'a> Parser<'a> {
             current: 0,
             builder: GreenTreeBuilder::new(),
             errors: Vec::new(),
+            in_lambda_param_type: false,
         }
     }
 
@@ -1054,7 +1058,10 @@ impl<'a> Parser<'a> {
         self.parse_type_primary();
 
         // Only continue parsing union if `|` is followed by a type start token
-        if self.check(TokenKind::LambdaArgBeginEnd) && self.is_type_start_after_pipe() {
+        if !self.in_lambda_param_type
+            && self.check(TokenKind::LambdaArgBeginEnd)
+            && self.is_type_start_after_pipe()
+        {
             // We have a union type, wrap the first type and parse the rest
             self.builder.start_node_at(marker, SyntaxKind::UnionType);
             while self.check(TokenKind::LambdaArgBeginEnd) && self.is_type_start_after_pipe() {
@@ -1125,11 +1132,13 @@ impl<'a> Parser<'a> {
             }
             Some(TokenKind::ArrayBegin) => {
                 // Array type: [T]
+                let in_lambda_param_type = std::mem::replace(&mut self.in_lambda_param_type, false);
                 self.emit_node(SyntaxKind::ArrayType, |inner| {
                     inner.expect(TokenKind::ArrayBegin);
                     inner.parse_type();
                     inner.expect(TokenKind::ArrayEnd);
                 });
+                self.in_lambda_param_type = in_lambda_param_type;
             }
             Some(TokenKind::BackQuote) => {
                 // Code type: `Type
@@ -1174,6 +1183,12 @@ impl<'a> Parser<'a> {
 
     /// Parse tuple type or parenthesized type: (T) or (T1, T2)
     fn parse_type_tuple_or_paren(&mut self) {
+        let in_lambda_param_type = std::mem::replace(&mut self.in_lambda_param_type, false);
+        self.parse_type_tuple_or_paren_inner();
+        self.in_lambda_param_type = in_lambda_param_type;
+    }
+
+    fn parse_type_tuple_or_paren_inner(&mut self) {
         // Look ahead to determine if it's a tuple
         let mut paren_depth = 0;
         let is_tuple = (1..MAX_LOOKAHEAD)
@@ -1227,6 +1242,12 @@ impl<'a> Parser<'a> {
 
     /// Parse record type: {field1: Type1, field2: Type2}
     fn parse_type_record(&mut self) {
+        let in_lambda_param_type = std::mem::replace(&mut self.in_lambda_param_type, false);
+        self.parse_type_record_inner();
+        self.in_lambda_param_type = in_lambda_param_type;
+    }
+
+    fn parse_type_record_inner(&mut self) {
         self.emit_node(SyntaxKind::RecordType, |inner| {
             inner.expect(TokenKind::BlockBegin);
 
@@ -1386,7 +1407,9 @@ impl<'a> Parser<'a> {
 
                     // Optional type annotation
                     if this.check(TokenKind::Colon) {
+                        this.in_lambda_param_type = true;
                         this.parse_type_annotation();
+                        this.in_lambda_param_type = false;
                     }
                 } else {
                     // Skip unexpected tokens in parameter list to recover
